@@ -64,7 +64,10 @@ def construct(ver, s, rh=False, with_json=True, reparse=True, order=None, sub=Fa
             obj = clone_of(obj, clone)          # the copy is observed
         else:
             clone_of(obj, clone - 5)            # a copy is made and dropped, the original is observed: copying is a read-only use
-    o = observe(obj, ver, with_json, order)
+    try:
+        o = observe(obj, ver, with_json, order)
+    except Exception as e:  # noqa - an accessor of an accepted vector that raises is an observation (the harness reports it under the property at hand)
+        return obj, {"cls": "accessor-raised", "e": exc_obs(e)}
     o["cls"] = "ok"
     o["minor"] = getattr(obj, "minor_version", -1) if ver == "3" else -1
     if reparse:
@@ -183,7 +186,7 @@ def main():
         elif op == "pool":
             objs, obs_ = [], []
             for p in it["items"]:
-                obj, o = construct(p["ver"], unesc(p["s"]), with_json=False, reparse=False)
+                obj, o = construct(p["ver"], unesc(p["s"]), with_json=True, reparse=False)
                 objs.append(obj)
                 obs_.append(o)
             n = len(objs)
@@ -207,6 +210,18 @@ def main():
                 "set_size": safe(lambda: len(set(o for o in objs if o is not None)), -1, "set"),
                 "raised": sorted(set(raised)),
             }
+            # comparing is a read-only use of both operands: every object observes the same after the whole matrix as before it
+            after = []
+            for p, obj, o in zip(it["items"], objs, obs_):
+                if obj is None or o.get("cls") != "ok":
+                    after.append(True)
+                    continue
+                try:
+                    o2 = observe(obj, p["ver"], True)
+                    after.append(all(o2.get(k_) == o.get(k_) for k_ in o2))
+                except Exception:  # noqa
+                    after.append(False)
+            ev["out"]["unchanged_after"] = after
         elif op == "internals":
             ev["out"] = internals(it["ver"], unesc(it["s"]))
         elif op == "walk":
@@ -219,6 +234,9 @@ def main():
             ev["out"] = {"obs": obs_,
                          "eq0": [bool(o0 == o) if (o0 is not None and o is not None) else False for o in objs],
                          "eq0r": [bool(o == o0) if (o0 is not None and o is not None) else False for o in objs],
+                         "ne0": [bool(o0 != o) if (o0 is not None and o is not None) else True for o in objs],
+                         "ne0r": [bool(o != o0) if (o0 is not None and o is not None) else True for o in objs],
+                         "in0": [bool(o in set([o0])) and bool(o in [o0]) and bool({o0: 1}.get(o) == 1) if (o0 is not None and o is not None) else False for o in objs],
                          "hash0": [(hash(o0) == hash(o)) if (o0 is not None and o is not None) else False for o in objs]}
         else:
             raise ValueError(op)
